@@ -386,7 +386,12 @@ def register(S):
                 lo, hi = max(a.lo, b.lo), max(a.hi, b.hi)
             else:
                 lo, hi = min(a.lo, b.lo), min(a.hi, b.hi)
-            return ctx.ret(IntVal(a.ty, lo, hi, None, None, None, a.deps | b.deps, tags=frozenset([("max" if ismax else "min", repr(a), repr(b))])))
+            from .interp import _name_of
+            na, nb = _name_of(a), _name_of(b)
+            tags = frozenset([("max" if ismax else "min", repr(a), repr(b))])
+            if na is not None or nb is not None:
+                tags |= frozenset([("name", "%s(%s,%s)" % ("max" if ismax else "min", na if na is not None else a.cval(), nb if nb is not None else b.cval()))])
+            return ctx.ret(IntVal(a.ty, lo, hi, None, None, None, a.deps | b.deps, tags=tags))
         return ctx.ret(ctx.top_ret())
 
     @S.pat(r"^core::clone::impls::<impl core::clone::Clone for \w+>::clone$",
